@@ -15,6 +15,10 @@ NOT_APPLICABLE = {
 
 # property -> (engine, category, technique, text, note, design_ref)
 CLAIMED = {
+    'C03': ('layout', 'other', 'index-role typing (a units-of-measure style dataflow over extents q, A, q*A and the indices ranging over them) checked at every subscript, column composition, column decomposition and column append',
+            'Decides only the column-layout clause: residual/recalculated/prediction matrices with q*A columns are produced and consumed LV-major, so column c is always paired with response c mod q. Orthogonality, re-projection and the values of the fitted responses are NOT decided.',
+            'Trusted: clang AST; the role seeds (struct fields and public parameter positions, DESIGN.md Appendix A). A subscript whose roles cannot be inferred is counted as undecided, never as a violation.',
+            'DESIGN.md 2/E5, 3/C03'),
     'C18': ('loopterm', 'other', 'termination certificates: per-loop ranking argument over the structured AST (constant-step counter on every path, loop-invariant bound with callee mod summaries, capped exits incl. callee "returns non-zero when a>b" summaries) for all loops reachable in the call graph from the fitting roots',
             'Decides the termination clause only: each of the 435 loops reachable from PCA/PLS/CPCA/KMeans/NelderMeadSimplex/CV drivers/MLR workers has a counted/capped/consuming certificate, or is one of 3 listed rejection-sampling/assumed loops, or is the one open known finding. Finiteness of components and zero-vs-NaN variance are NOT decided.',
             'Trusted: clang AST, structured control flow, no aliasing of a container under two names inside one loop, thread counts >= 1. Unknown loop shapes are violations (no certificate), vanished roots are ANALYSIS-BROKEN.',
